@@ -92,4 +92,4 @@ def through_csv(df, tmpdir, name="frame.csv", header=True):
     path = os.path.join(tmpdir, name)
     has_index = any(n is not None for n in df.index.names)
     df.to_csv(path, index=has_index, header=header)
-    return pd.read_csv(path), path
+    return pd.read_csv(path, float_precision="round_trip"), path
